@@ -17,9 +17,12 @@ LEVEL_TEXT = ("the TUM, KITTI and EuRoC readers are verified against the publish
               "FileInterfaceException exactly when there is no data row, row 0 has the wrong width, the rows are ragged or a "
               "token is not numeric; otherwise one pose per row in file order with timestamp / position / quaternion (w last "
               "in TUM, w first in EuRoC, nanoseconds -> seconds) / the 12 row-major matrix entries in the published slots.  "
-              "The TUM and KITTI writers hand numpy.savetxt exactly the rows of the convention, space separated.  Bytes, BOM, "
-              "comment lines, CRLF, float spellings, transform files (npy / txt / JSON, SE(3)/Sim(3) validation) and the "
-              "quaternion -> matrix map: bounded stand-in with an independent parser of the conventions.")
+              "The TUM and KITTI writers hand numpy.savetxt exactly the rows of the convention, space separated.  "
+              "quaternion_matrix = Hamilton matrix of the normalised quaternion with w first (Groebner), "
+              "xyz_quat_wxyz_to_se3_poses pose by pose, load_transform_json (keys x y z qx qy qz qw + optional scale -> "
+              "sim3(R(qw,qx,qy,qz), (x,y,z), scale or 1), missing key refused).  Bytes, BOM, comment lines, CRLF, float "
+              "spellings, npy / txt transform files and the SE(3)/Sim(3) validation of load_transform: bounded stand-in with "
+              "an independent parser of the conventions.")
 LEVEL_NOTE = ("csv_read_matrix (text, csv module, BOM) is an assumed contract exercised by the bounded stand-in; numpy "
               "conversion trusted; widths enumerated (7/8/9, 11/12/13, 7/8/17 columns)")
 SIDECARS = ["contracts.lie_algebra", "contracts.geometry", "contracts.filters", "contracts.umeyama", "contracts.trajectory",
@@ -35,7 +38,7 @@ LEMMAS = []
 TRUSTED = ["numpy.array(rows).astype(float): ValueError iff ragged or non-numeric, else float() per token",
            "numpy.savetxt: line i = row i formatted with fmt, joined by the delimiter"]
 ASSUMPTIONS = ["assumed contract: csv_read_matrix returns the token matrix of the non-comment lines (bounded stand-in only)",
-               "load_transform / load_transform_json / quaternion_matrix: bounded stand-in only"]
+               "load_transform (file type dispatch, is_sim3 validation): bounded stand-in only"]
 EXPLANATION = "symbolic token matrix; readers and writers as slot maps checked against the published column conventions"
 
 SPELL = [lambda x: repr(x), lambda x: "%.17g" % x, lambda x: "%.18e" % x, lambda x: ("+" if x >= 0 else "") + repr(x),
